@@ -1309,7 +1309,7 @@ def finish(nz, node, cls, mod, do_alias=True, do_shape=True, qual=None):
             changed += spelling(node, cls, mod)
             changed += sets_to_flags(node)
             k0 = split_live_ranges(node)
-            k = propagate_aliases(node)
+            k = propagate_aliases(node, mod)
             nz.alias_subst += k0 + k
             if k or k0:
                 changed += k + k0 + spelling(node, cls, mod)      # literals moved into place may enable U1/U3/U5
@@ -1815,7 +1815,125 @@ def _record_value_of_stable_names(e, stores, params, attr_stores):
     return True
 
 
-def propagate_aliases(fn):
+# ---------------------------------------------------------------------------------------------------------------------------
+# When may `x = a.b.c` stand for `a.b.c` at a later read of x?  The function not storing a.b.c itself is not enough: a call in
+# between may (SessionHandler.id is advanced by _verify_session_id).  Either every attribute of the chain is STABLE in the whole
+# repository - written only by constructors on their own instance (or in a class body), never anywhere else, not a computed
+# property, not on a class that writes its instance dictionary dynamically - or nothing with an effect is evaluated between the
+# binding and the reads.
+# ---------------------------------------------------------------------------------------------------------------------------
+def attr_stability(repo):
+    st = getattr(repo, "_attr_stability", None)
+    if st is not None:
+        return st
+    init_stores, all_stores, init_names, other_names, props, dyn_classes = set(), [], set(), set(), {}, []
+    for m in repo.mods.values():
+        for node in ast.walk(m.tree):
+            if isinstance(node, ast.ClassDef):
+                dyn = False
+                cnames = set()
+                for s_ in node.body:
+                    if isinstance(s_, ast.Assign):
+                        cnames |= {t.id for t in s_.targets if isinstance(t, ast.Name)}
+                    elif isinstance(s_, ast.AnnAssign) and isinstance(s_.target, ast.Name):
+                        cnames.add(s_.target.id)
+                    elif isinstance(s_, (ast.FunctionDef, ast.AsyncFunctionDef)):
+                        selfn = s_.args.args[0].arg if s_.args.args else None
+                        is_prop = any(isinstance(d, ast.Name) and d.id == "property" for d in s_.decorator_list)
+                        if is_prop:
+                            e_ = single_expr_of(s_.body)
+                            tgt = e_.attr if isinstance(e_, ast.Attribute) and isinstance(e_.value, ast.Name) and e_.value.id == selfn else None
+                            props.setdefault(s_.name, set()).add(tgt)
+                        for x in ast.walk(s_):
+                            if isinstance(x, ast.Attribute) and x.attr == "__dict__":
+                                dyn = True
+                            if isinstance(x, ast.Call) and isinstance(x.func, ast.Name) and x.func.id in ("setattr", "delattr") \
+                                    and not (len(x.args) >= 2 and isinstance(x.args[1], ast.Constant)):
+                                dyn = True
+                            if s_.name in ("__init__", "__new__") and isinstance(x, ast.Attribute) and isinstance(x.ctx, ast.Store) \
+                                    and isinstance(x.value, ast.Name) and x.value.id == selfn:
+                                init_stores.add(id(x))
+                                cnames.add(x.attr)
+                init_names |= cnames
+                if dyn:
+                    dyn_classes.append(cnames)
+            if isinstance(node, ast.Attribute) and isinstance(node.ctx, (ast.Store, ast.Del)):
+                all_stores.append(node)
+            if isinstance(node, ast.Call) and isinstance(node.func, ast.Name) and node.func.id in ("setattr", "delattr") \
+                    and len(node.args) >= 2 and isinstance(node.args[1], ast.Constant) and isinstance(node.args[1].value, str):
+                other_names.add(node.args[1].value)
+    for x in all_stores:
+        if id(x) not in init_stores:
+            other_names.add(x.attr)
+    unstable_dyn = set()
+    for c in dyn_classes:
+        unstable_dyn |= c
+    stable = set()
+    for a in init_names:
+        if a in other_names or a in unstable_dyn or a in props:
+            continue
+        stable.add(a)
+    for a, tg in props.items():       # a property that only returns one stable attribute of its instance
+        if a not in other_names and a not in unstable_dyn and len(tg) == 1 and None not in tg and next(iter(tg)) in stable:
+            stable.add(a)
+    repo._attr_stability = stable
+    return stable
+
+
+def _stmt_has_effect(st):
+    from .desugar import is_pure
+    for n in ast.walk(st):
+        if isinstance(n, (ast.Attribute, ast.Subscript)) and isinstance(n.ctx, (ast.Store, ast.Del)):
+            return True
+        if isinstance(n, (ast.With, ast.AsyncWith, ast.Global, ast.Nonlocal, ast.Import, ast.ImportFrom)):
+            return True
+        if isinstance(n, ast.expr) and not isinstance(n, (ast.Name, ast.Constant)) and not is_pure(n):
+            return True
+    return False
+
+
+def no_effect_before_reads(name, later):
+    """every read of `name` in `later` happens before anything with an effect is evaluated after the binding"""
+    from .desugar import Desugar, is_pure
+    total = sum(1 for t in later for n in ast.walk(t) if isinstance(n, ast.Name) and n.id == name and isinstance(n.ctx, ast.Load))
+    seen = 0
+    for st in later:
+        uses = [n for n in ast.walk(st) if isinstance(n, ast.Name) and n.id == name and isinstance(n.ctx, ast.Load)]
+        if not uses:
+            if _stmt_has_effect(st):
+                return seen == total
+            continue
+        roots = None
+        if isinstance(st, (ast.Assign, ast.AugAssign, ast.AnnAssign, ast.Return, ast.Expr)) and getattr(st, "value", None) is not None:
+            roots = [st.value]
+            in_value = {id(n) for n in ast.walk(st.value)}
+            if not all(id(u) in in_value for u in uses):
+                roots = None
+        elif isinstance(st, (ast.If, ast.While)) and not isinstance(st, ast.While):
+            in_test = {id(n) for n in ast.walk(st.test)}
+            if all(id(u) in in_test for u in uses):
+                roots = [st.test]
+        if roots is None:
+            if _stmt_has_effect(st):
+                return False
+        else:
+            for u in uses:
+                bef = Desugar._before(roots[0], u)
+                if bef is None:
+                    if not is_pure(roots[0]):
+                        return False
+                elif not all(is_pure(b_) for b_ in bef):
+                    return False
+        seen += len(uses)
+        if seen == total:
+            return True
+        if _stmt_has_effect(st):
+            return False
+    return True
+
+
+def propagate_aliases(fn, mod=None):
+    _MOD[0] = mod
     params = {a.arg for a in fn.args.posonlyargs + fn.args.args + fn.args.kwonlyargs}
     if fn.args.vararg:
         params.add(fn.args.vararg.arg)
@@ -1837,6 +1955,43 @@ def propagate_aliases(fn):
             stores[n.name] = stores.get(n.name, 0) + 1
     cands = {}
     deep = set()
+    stable_attrs = attr_stability(_REPO[0]) if _REPO[0] is not None else set()
+
+    def chains_of(e):
+        out, skip = [], set()
+        for n in ast.walk(e):
+            if isinstance(n, ast.Attribute) and id(n) not in skip:
+                out.append(n)
+                x = n
+                while isinstance(x, ast.Attribute):
+                    skip.add(id(x))
+                    x = x.value
+        return out
+
+    def chain_stable(a):
+        x = a
+        while isinstance(x, ast.Attribute):
+            if x.attr not in stable_attrs:
+                return False
+            x = x.value
+        if isinstance(x, ast.Name):
+            return True
+        return False
+
+    def module_chain(a):
+        x = a
+        while isinstance(x, ast.Attribute):
+            x = x.value
+        if isinstance(x, ast.Name) and stores.get(x.id, 0) == 0 and x.id not in params and _MOD[0] is not None:
+            return _MOD[0].imports.get(x.id, (None, "x"))[1] is None and x.id in _MOD[0].imports
+        return False
+
+    def sound(name, value, later):
+        """the attribute chains of `value` still have their value at every read of `name`"""
+        ch = chains_of(value)
+        if all(chain_stable(a) or module_chain(a) for a in ch):
+            return True
+        return no_effect_before_reads(name, later)
 
     def scan(stmts, depth_ok):
         for i, s in enumerate(stmts):
@@ -1959,6 +2114,9 @@ def propagate_aliases(fn):
     scan(fn.body, True)
     n_sub = 0
     for name, (value, later) in cands.items():
+        if not sound(name, value, later):
+            continue
+
         class R(ast.NodeTransformer):
             def visit_Name(self, n):
                 nonlocal n_sub
@@ -1999,6 +2157,7 @@ def propagate_aliases(fn):
 # =====================================================================================================
 _SIMPLE_ELT = (ast.Name, ast.Constant, ast.Attribute)
 _REPO = [None]        # the repository being normalised (set by apply)
+_MOD = [None]         # the module of the function being finished
 
 
 def _simple_val(e):
